@@ -334,6 +334,14 @@ func (b *boundsCtx) requestDerived(v ssa.Value, seen map[ssa.Value]bool, depth i
 		}
 	case *ssa.UnOp:
 		if x.Op == token.MUL {
+			// an integer field of the request itself (Content-Length as parsed by net/http: -1 when unknown)
+			if fa, ok := x.X.(*ssa.FieldAddr); ok {
+				if n := an.NamedOf(an.Deref(fa.X.Type())); n != nil && n.Obj().Pkg() != nil && n.Obj().Pkg().Path() == "net/http" && n.Obj().Name() == "Request" {
+					if bt, ok := x.Type().Underlying().(*types.Basic); ok && bt.Info()&types.IsInteger != 0 {
+						return true
+					}
+				}
+			}
 			if f := b.forward(x); f != ssa.Value(x) {
 				return b.requestDerived(f, seen, depth+1)
 			}
@@ -476,6 +484,30 @@ func runBounds(c *core.Ctx) {
 					c.Fail(key, x.Pos(), "the slice expression at %s uses a bound parsed from the request and the dominating conditions do not prove %v: a request value at or beyond the bound panics the handler", c.P.Pos(x.Pos()), problems)
 				} else {
 					c.Pass(key, x.Pos(), "request-derived bound proven in range")
+				}
+			case *ssa.MakeSlice:
+				dl := b.requestDerived(x.Len, map[ssa.Value]bool{}, 0)
+				dc := b.requestDerived(x.Cap, map[ssa.Value]bool{}, 0)
+				if !dl && !dc {
+					return
+				}
+				n++
+				total++
+				key := fmt.Sprintf("make:%s#%d", name, n)
+				var problems []string
+				if dl && !b.prove(nil, x.Len, nil, 0, x.Block(), nil, 0) {
+					problems = append(problems, "0 ≤ len")
+				}
+				if dc && !b.prove(nil, x.Cap, nil, 0, x.Block(), nil, 0) {
+					problems = append(problems, "0 ≤ cap")
+				}
+				if dc && !b.prove(x.Len, x.Cap, nil, 0, x.Block(), nil, 0) {
+					problems = append(problems, "len ≤ cap")
+				}
+				if len(problems) > 0 {
+					c.Fail(key, x.Pos(), "make at %s takes a size that comes from the request (an integer parsed from it, or a field of the request such as ContentLength, which is -1 when the length is unknown) and the dominating conditions do not prove %v: such a request panics the handler", c.P.Pos(x.Pos()), problems)
+				} else {
+					c.Pass(key, x.Pos(), "request-derived size proven non-negative")
 				}
 			case *ssa.IndexAddr:
 				if !b.requestDerived(x.Index, map[ssa.Value]bool{}, 0) {
